@@ -532,6 +532,7 @@ func init() {
 
 func runC15(r *Rand, tier string, o *Out) {
 	names := []string{"a", "b", "c", "ServiceDirectory"}
+	idName := map[int]string{} // the name each registered id was given (this script)
 	gen := func(ids []int, locals []int) string {
 		name := names[r.Intn(len(names))]
 		id := 1 + r.Intn(6)
@@ -565,6 +566,9 @@ func runC15(r *Rand, tier string, o *Out) {
 			if r.Chance(20) {
 				e = "-"
 			}
+			if n, ok := idName[id]; ok && r.Chance(65) {
+				name = n // an update that keeps name and identity: the one that is accepted
+			}
 			return fmt.Sprintf("sd.update %d %s %s %s %s", id, name, m, p, e)
 		case k < 75:
 			return "sd.service " + name
@@ -585,6 +589,9 @@ func runC15(r *Rand, tier string, o *Out) {
 	for s := 0; s < scripts; s++ {
 		o.Do("P", "sd.reset", false)
 		var ids, locals []int
+		for k := range idName {
+			delete(idName, k)
+		}
 		n := 10 + r.Intn(25)
 		for i := 0; i < n; i++ {
 			line := gen(ids, locals)
@@ -598,6 +605,9 @@ func runC15(r *Rand, tier string, o *Out) {
 			if strings.HasPrefix(out, "ok ") {
 				fmt.Sscanf(out, "ok %d", &k)
 				ids = append(ids, k)
+				if f := strings.Fields(line); len(f) > 1 && (f[0] == "sd.reg" || f[0] == "sd.lnew") {
+					idName[k] = f[1]
+				}
 				if strings.HasPrefix(line, "sd.lnew") {
 					locals = append(locals, k)
 				}
